@@ -149,6 +149,11 @@ def build_alphabet() -> list[Sym]:
     add('select_trash', b'SELECT Trash', 'SELECT', True, _cmd('SELECT', _mb('Trash')),
         core=False)
     add('select_missing', b'SELECT Nope', 'SELECT', True, _cmd('SELECT', _mb('Nope')))
+    add('select_rejected', b'SELECT "a//b"', 'SELECT', True, _cmd('SELECT', _mb('a//b')),
+        core=False)
+    add('select_dotted', b'SELECT a.b', 'SELECT', True, _cmd('SELECT', _mb('a.b')), core=False)
+    add('examine_rejected', b'EXAMINE ".."', 'EXAMINE', True, _cmd('EXAMINE', _mb('..')),
+        core=False)
     add('select_args', b'SELECT', 'SELECT', False, inv, core=False)
     add('examine_inbox', b'EXAMINE INBOX', 'EXAMINE', True, _cmd('EXAMINE', _mb('INBOX')))
     add('examine_missing', b'EXAMINE Nope', 'EXAMINE', True, _cmd('EXAMINE', _mb('Nope')),
@@ -263,7 +268,41 @@ VARIANTS = {
     'remote_tls': dict(tls=True, local=False, limit=5),
     'local_tls': dict(tls=True, local=True, limit=5),
     'nolimit': dict(tls=False, local=True, limit=None),
+    # the maildir backend ('++' layout) on a copy of a template store
+    'maildir': dict(tls=False, local=True, limit=5, backend='maildir'),
 }
+
+_MD_TEMPLATE = {}
+
+
+async def maildir_env():
+    """A fresh maildir store for one sequence: a copy of a template made once per
+    process (user testuser, INBOX 3 / Sent 2 / Trash 1 messages)."""
+    import shutil
+    import tempfile
+    from ..pymap_env import MaildirEnv
+    users = (('testuser', 'testpass'),)
+    if 'base' not in _MD_TEMPLATE:
+        env = await MaildirEnv('++', users=users).start()
+        conn = await env.login(b'testuser', b'testpass')
+        for box, (n, _ro) in BOXES.items():
+            if box != 'INBOX':
+                r = await conn.send(b'c CREATE ' + box.encode() + b'\r\n')
+                assert b'c OK' in r, r
+            for _ in range(n):
+                r = await conn.send(b'a APPEND %s {%d+}\r\n%s\r\n' % (box.encode(), len(MSG), MSG))
+                assert b'a OK' in r, r
+        await conn.send_eof()
+        _MD_TEMPLATE['base'] = env.base
+        import atexit
+        atexit.register(shutil.rmtree, env.base, True)
+    top = tempfile.mkdtemp(prefix='pymapverif-c05-')
+    base = os.path.join(top, 'm')
+    shutil.copytree(_MD_TEMPLATE['base'], base)
+    env = await MaildirEnv('++', users=users, base_dir=base).start()
+    env._top = top
+    return env
+
 
 PREFIXES = {
     'nonauth': [],
@@ -340,10 +379,16 @@ def _why(cond: str, text: bytes, out: bytes, closed: bool) -> str:
 
 async def run_sequence(rec: Recorder, variant: dict, keys: list[str]) -> dict:
     """One sequence on a fresh backend.  Returns everything observed."""
-    env = await small_dict_env(tls=variant['tls'], boxes=BOXES,
-                               bad_command_limit=variant['limit'])
+    maildir = variant.get('backend') == 'maildir'
+    if maildir:
+        env = await maildir_env()
+        rec.log.take()          # (building the template store went through the proxies too)
+        conn = await env.connect()
+    else:
+        env = await small_dict_env(tls=variant['tls'], boxes=BOXES,
+                                   bad_command_limit=variant['limit'])
+        conn = await env.connect(local=variant['local'])
     ncap_login = len(env.config.login_capability)
-    conn = await env.connect(local=variant['local'])
     steps = []
 
     main_state = None
@@ -368,7 +413,7 @@ async def run_sequence(rec: Recorder, variant: dict, keys: list[str]) -> dict:
         if key in INTERFERE:
             # the other session; its backend calls are not the main connection's
             if other is None:
-                other = await env.connect(local=True)
+                other = await (env.connect() if maildir else env.connect(local=True))
                 r = await other.send(b'o0 LOGIN testuser testpass\r\n')
                 assert b'o0 OK' in r, r
             outs = []
@@ -388,6 +433,9 @@ async def run_sequence(rec: Recorder, variant: dict, keys: list[str]) -> dict:
         await conn.send_eof()
     if other is not None and not other.closed:
         await other.send_eof()
+    if maildir:
+        import shutil
+        shutil.rmtree(env._top, ignore_errors=True)
     return {'greeting': greeting, 'steps': steps, 'idle_cap': True}
 
 
@@ -432,6 +480,8 @@ def _answer(rec: dict) -> str:
         return f'(AnsOk {T.boolean(rec.get("ro", False))} {T.boolean(rec.get("gone", False))})'
     if o == 'no:MailboxNotFound':
         return 'AnsNotFound'
+    if o in ('no:NotSupportedError', 'no:SearchNotAllowed'):
+        return 'AnsCannot'
     if o.startswith('no:'):
         return 'AnsNo'
     if o == 'timeout':
@@ -703,6 +753,22 @@ def gen_sequences(ctx) -> list[tuple[str, list[str]]]:
                     if ctx.quick and rng.random() < 0.6 and a not in ('close', 'expunge', 'logout'):
                         continue
                     seqs.append(('plain', pre + b4 + [x, a, 'close', 'logout']))
+    # 2c. the maildir backend: every symbol (but IDLE, whose wait polls the file system) from
+    # the authenticated and the two selected phases, and what follows a failed SELECT/EXAMINE
+    md = [k for k in full if BYKEY[k].name != 'IDLE']
+    for pre in (['login_ok'], ['login_ok', 'select_inbox'], ['login_ok', 'examine_inbox']):
+        for a in md:
+            if ctx.quick and BYKEY[a].name not in ('SELECT', 'EXAMINE', 'CLOSE') \
+                    and rng.random() < 0.5:
+                continue
+            seqs.append(('maildir', pre + [a] + TAIL))
+    for pre in (['login_ok', 'select_inbox'], ['login_ok', 'examine_inbox'],
+                ['login_ok', 'select_sent', 'store']):
+        for bad in ('select_rejected', 'select_dotted', 'examine_rejected', 'select_missing',
+                    'examine_missing'):
+            for a in ('fetch', 'store', 'search', 'close', 'expunge', 'noop', 'check',
+                      'select_inbox', 'uid_fetch', 'copy'):
+                seqs.append(('maildir', pre + [bad, a, 'close', 'logout']))
     # 3. random sequences up to length 30, every configuration
     valid_by_state = {
         NONAUTH: [s.key for s in ALPHABET if s.valid and s.name and NONAUTH in RFC_TABLE[s.name]],
@@ -710,7 +776,7 @@ def gen_sequences(ctx) -> list[tuple[str, list[str]]]:
         SEL: [s.key for s in ALPHABET if s.valid and s.name and SEL in RFC_TABLE[s.name]],
     }
     for _ in range(ctx.scale(800, 20000)):
-        variant = rng.choice(['plain', 'plain', 'nolimit', 'remote_tls', 'local_tls'])
+        variant = rng.choice(['plain', 'plain', 'nolimit', 'remote_tls', 'local_tls', 'maildir'])
         n = rng.randint(3, 30)
         keys = []
         st = NONAUTH
@@ -733,6 +799,9 @@ def gen_sequences(ctx) -> list[tuple[str, list[str]]]:
                 st = SEL
             elif k in ('select_missing', 'examine_missing', 'close') and st == SEL:
                 st = AUTH
+        if variant == 'maildir':
+            keys = ['noop' if BYKEY.get(k) is not None and BYKEY[k].name == 'IDLE' else k
+                    for k in keys]
         seqs.append((variant, keys))
     return seqs
 
